@@ -37,6 +37,7 @@ def parseOp (ws : List String) : Option Op :=
   | ["finish", m, f] => some (.finish (natArg m) (parseFault f))
   -- SetTSO takes one 64-bit value `ms << 18 | logical`: the logical part is 18 bits by construction
   | ["setts", m, ms, l, f] => some (.setTS (natArg m) (natArg ms) (natArg l % 2 ^ 18) false (parseFault f))
+  | ["writets", m, ms, l, f] => some (.setTS (natArg m) (natArg ms) (natArg l % 2 ^ 18) true (parseFault f))
   | ["resetmem", m] => some (.resetMem (natArg m))
   | _ => none
 
